@@ -33,8 +33,17 @@ m = dict(
     hooks=dict(guard="verif", enable="go build/test -tags verif (run.py passes it to every build)",
                baseline_off_cmd="python3 /verif/baseline.py", source_commits=hooks, add_only=True),
     engines=[
-        dict(name="rapid-props", path="harness/props", kind_free_text="property-based tests (pgregory.net/rapid v1.3.0), sharded by run.py",
+        dict(name="rapid-props", path="harness/props", kind_free_text="property-based tests (pgregory.net/rapid v1.3.0): generators, reference model (harness/hx) and oracles; sharded over 16 processes by run.py with PRNG values derived from VERIF_SEED",
              serves_properties=[c["property_id"] for c in checks]),
+        dict(name="crash-engine", path="harness/crashfs", kind_free_text="strace recording of the real server executing a generated history (cmd/mkwork), parser and crash-state materialiser "
+             "(every system-call prefix, power-loss variants), fresh-process restart through the production start-up path (cmd/mkrestart)",
+             serves_properties=[p for p in props if CHECKS.get(p, {}).get("engine") == "crash-engine"]),
+        dict(name="race-detector", path="harness/props", kind_free_text="generated concurrent programs built with go test -race; schedule-independent oracles; log.Fatal of the server turned into an attributable panic",
+             serves_properties=[p for p in props if CHECKS.get(p, {}).get("race")]),
+        dict(name="native-fuzz", path="harness/props", kind_free_text="go test -fuzz targets with semantic oracles (FuzzC06, FuzzC33): seeds and committed corpus in every tier, coverage-guided fuzzing in the thorough tier",
+             serves_properties=[p for p in props if CHECKS.get(p, {}).get("fuzz")]),
+        dict(name="chroot-jail", path="harness/cmd/jailworker", kind_free_text="worker process chroot'ed into a throw-away tree executes requests with hostile keys; file-system snapshot oracle",
+             serves_properties=["C16"]),
     ],
     checks=checks,
     not_applicable=na,
